@@ -48,6 +48,7 @@ type netParams struct {
 	OtherTrack   bool        `json:"other_track,omitempty"`   // push: the local repository has remote-tracking refs of another remote below the pushed commits
 	FFConf       string      `json:"ff_conf,omitempty"`       // merge/pull: merge.fastForward in the configuration ("never" | "only"); FF "ff" is the flag that overrides it
 	DotName      bool        `json:"dot_name,omitempty"`      // the first branch is called v1.0 (a name fetch and push accept, commit and branch do not)
+	TwoRemotes   bool        `json:"two_remotes,omitempty"`   // fetch --all: a second remote at another path of the same host has a same-named branch at another commit
 	PreMid       int         `json:"pre_mid,omitempty"`       // Pre: the earlier position of the branch (0 = pick a random ancestor)
 	Pre          string      `json:"pre,omitempty"`           // fetch: "shallow-fetch" = an earlier `fetch --depth 1` of an ancestor of the branch left shallow commits behind
 	ShallowLocal int         `json:"shallow_local,omitempty"` // push: this many non-tip commits of the pushed history lack their table locally (a shallow clone)
@@ -105,6 +106,7 @@ type netWorld struct {
 	remoteDB *mon.MemStore
 	remoteRS ref.Store
 	srv      *refserver.Server
+	second   int // TwoRemotes: the commit the second remote's branch is at (-1 = no second remote)
 	cleanup  []func()
 }
 
@@ -339,6 +341,30 @@ func buildNet(c *fw.Case, env *fw.Env, p *netParams, rng *rand.Rand) (*netWorld,
 	}
 	w.srv = refserver.New(w.remoteDB, w.remoteRS, p.MaxPack)
 	w.srv.OneBytePerFlush = p.Slow
+	w.second = -1
+	if p.TwoRemotes && len(w.plans) > 0 && w.plans[0].Remote >= 0 {
+		var cands []int
+		for c := range h.sums {
+			if c != w.plans[0].Remote {
+				cands = append(cands, c)
+			}
+		}
+		if len(cands) > 0 {
+			t := cands[rng.Intn(len(cands))]
+			db2 := mon.NewMemStore()
+			rs2, sdb2, err := mon.NewMemRefStore()
+			if err != nil {
+				return nil, err
+			}
+			w.cleanup = append(w.cleanup, func() { sdb2.Close() })
+			if err := h.copyCommitClosure(w.all, db2, t); err != nil {
+				return nil, err
+			}
+			ref.SaveRef(rs2, "heads/"+w.plans[0].Name, h.sums[t], "setup", "s@x", "setup", "second remote", nil)
+			w.srv.Mount("/b", refserver.NewCore(db2, rs2, p.MaxPack))
+			w.second = t
+		}
+	}
 	w.cleanup = append(w.cleanup, func() { w.srv.Close() })
 	return w, nil
 }
@@ -605,6 +631,11 @@ func setupRemoteConfig(w *netWorld, p *netParams) error {
 	_, err, pn := mon.Wrgl(w.localDir, nil, "remote", "add", "origin", w.srv.URL())
 	if err != nil || pn != "" {
 		return fmt.Errorf("remote add: %v %s", err, pn)
+	}
+	if w.second >= 0 {
+		if _, err, pn := mon.Wrgl(w.localDir, nil, "remote", "add", "second", w.srv.URL()+"/b"); err != nil || pn != "" {
+			return fmt.Errorf("remote add second: %v %s", err, pn)
+		}
 	}
 	if p.All {
 		return setupFetchConfig(w, p)
